@@ -87,14 +87,31 @@ func attrWant(a graphout.DotAttr) (quoted bool, val string) {
 	}
 }
 
+// sameAttrs compares an emitted attribute list with the expected one as a
+// multiset: the statement does not fix the order of attributes. A string value
+// must be quoted (and unescape to the original); any other value may be
+// emitted quoted or bare as long as its text is the same.
 func sameAttrs(got []refmodel.DotAttr, want []graphout.DotAttr) string {
 	if len(got) != len(want) {
 		return fmt.Sprintf("%d attributes, want %d", len(got), len(want))
 	}
-	for i, w := range want {
+	used := make([]bool, len(got))
+	for _, w := range want {
 		q, v := attrWant(w)
-		if got[i].Name != w.Name || got[i].Quoted != q || got[i].Val != v {
-			return fmt.Sprintf("attribute %d is %s=%q (quoted=%v), want %s=%q (quoted=%v)", i, got[i].Name, got[i].Val, got[i].Quoted, w.Name, v, q)
+		found := false
+		for i, g := range got {
+			if used[i] || g.Name != w.Name || g.Val != v {
+				continue
+			}
+			if q && !g.Quoted {
+				continue
+			}
+			used[i] = true
+			found = true
+			break
+		}
+		if !found {
+			return fmt.Sprintf("no attribute %s=%q (string=%v) among %v", w.Name, v, q, got)
 		}
 	}
 	return ""
@@ -199,7 +216,7 @@ func (c *ctx) dot() {
 		c.fail("dot-parse", "Fprint", "fault-free", "Dot output does not parse: %v\n%s", perr, full)
 		return
 	}
-	if !doc.NameQuoted || doc.Name != name {
+	if doc.Name != name {
 		c.fail("dot-quote", "Fprint", "name", "graph name unescapes to %q, want %q\n%s", doc.Name, name, full)
 		return
 	}
